@@ -72,8 +72,9 @@ func VfC07_Step() {
 	}
 	nr0, na0 := len(r.respCh), vfLenAck(r)
 	wasClosed := r.closed
+	lateBefore := time.Now().After(r.deadline) // the clock only moves forward: past the deadline before => past it during
 	s.handleQueryResponse(resp)
-	late := time.Now().After(r.deadline) // the clock only moves forward: late before => late during
+	late := time.Now().After(r.deadline) // not late after => not late during
 	nr1, na1 := len(r.respCh), vfLenAck(r)
 	vfReach("C07.step.done")
 	vfAssert("C07.step.atmostone", nr1-nr0+na1-na0 <= 1 && nr1 >= nr0 && na1 >= na0)
@@ -83,6 +84,10 @@ func VfC07_Step() {
 	}
 	if wasClosed {
 		vfAssert("C07.step.closed.nothing", nr1 == nr0 && na1 == na0)
+	}
+	if lateBefore {
+		// the query has finished (deadline passed) even if its timer has not closed it yet
+		vfAssert("C07.step.pastdeadline.nothing", nr1 == nr0 && na1 == na0)
 	}
 	if resp.Ack() {
 		vfAssert("C07.step.ack.kind", nr1 == nr0)
